@@ -30,11 +30,11 @@ var c13Sites = []string{"impact.listed", "impact.prelock", "srvauth.between", "s
 
 func init() {
 	Register(&Property{
-		ID:   "C13",
-		Run:  runC13,
-		Rule: "deterministic part: runs = 10-40 operations (reports, authorizations, conflicts, server posts, migration orders, statistics GETs, archives, sync sessions) with the rotation and impact loops running; every between-critical-sections site is a yield point; at each park the policy injects 0-2 interfering operations from the menu {ban, authorize, report, rotate, statistics GET with insert_false_negatives, server post, sync}; the model is applied in critical-section order; after every step all mutexes must be free; non-trivial = at least one interfering operation ran while another operation or job was parked between two critical sections; distinct = distinct decision signatures. Race part: see coverage.race_mode",
-		Real: []string{"all server handlers and background jobs, real mutexes", "thread group"},
-		Stub: []string{"OS scheduler (yield-point scheduler in the deterministic part; the Go scheduler itself in the race part)", "socket listeners"},
+		ID:             "C13",
+		Run:            runC13,
+		Rule:           "deterministic part: runs = 10-40 operations (reports, authorizations, conflicts, server posts, migration orders, statistics GETs, archives, sync sessions) with the rotation and impact loops running; every between-critical-sections site is a yield point; at each park the policy injects 0-2 interfering operations from the menu {ban, authorize, report, rotate, statistics GET with insert_false_negatives, server post, sync}; the model is applied in critical-section order; after every step all mutexes must be free; non-trivial = at least one interfering operation ran while another operation or job was parked between two critical sections; distinct = distinct decision signatures. Race part: see coverage.race_mode",
+		Real:           []string{"all server handlers and background jobs, real mutexes", "thread group"},
+		Stub:           []string{"OS scheduler (yield-point scheduler in the deterministic part; the Go scheduler itself in the race part)", "socket listeners"},
 		Assumptions:    []string{"interleavings are explored at critical-section boundaries (yield sites listed in DESIGN.md appendix A); preemption inside a critical section is not a distinct behaviour under the single-mutex discipline", "data races are decided only by the non-deterministic auxiliary race-detector mode"},
 		RequiredProbes: []string{"c13.interfere.impact.prelock", "c13.interfere.migrate.prelock", "c13.interfere.stats.postlock", "c13.interfere.sync.between", "c13.interfere.srvauth.between", "c13.interfere.auth.preforward", "c13.ban-in-gap", "c13.rotate-in-gap"},
 	})
